@@ -11,6 +11,7 @@ import (
 	"io"
 	"strings"
 
+	netty "github.com/go-netty/go-netty"
 	"github.com/go-netty/go-netty/codec/frame"
 	"github.com/go-netty/go-netty/zz_verif/clib"
 	"github.com/go-netty/go-netty/zz_verif/explore"
@@ -499,9 +500,71 @@ func pack() *explore.Scenario {
 	}
 }
 
+// variable-length codec: not a framing codec - every transport read is delivered as one message of
+// at most maxReadLength bytes; the concatenation of the deliveries must be the stream.
+type vcase struct {
+	Max  int   `json:"max"`
+	N    int   `json:"n"`
+	Cuts []int `json:"cuts"`
+}
+
+func runVariable(vc vcase) (string, string) {
+	stream := clib.Body(3, vc.N)
+	res := clib.Decode([]netty.Handler{frame.VariableLengthCodec(vc.Max)}, clib.Fragment(stream, vc.Cuts), false, false, vc.N+8)
+	var got []byte
+	for _, m := range res.Sink.Good() {
+		if len(m.Bytes) > vc.Max {
+			return "variable-length/oversized", fmt.Sprintf("VariableLengthCodec(%d): delivered a %d-byte message", vc.Max, len(m.Bytes))
+		}
+		if len(m.Bytes) == 0 {
+			return "variable-length/empty-message", fmt.Sprintf("VariableLengthCodec(%d): delivered an empty message (stream %d bytes cut at %v)", vc.Max, vc.N, vc.Cuts)
+		}
+		got = append(got, m.Bytes...)
+	}
+	if !bytes.Equal(got, stream) || res.Panic != nil || !res.Closed {
+		return "variable-length/stream", fmt.Sprintf("VariableLengthCodec(%d) on a %d-byte stream cut at %v: deliveries concatenate to %d bytes %q (panic %v, closed %v)", vc.Max, vc.N, vc.Cuts, len(got), clipB(got), res.Panic, res.Closed)
+	}
+	return "", ""
+}
+
+func variable() *explore.Scenario {
+	return &explore.Scenario{
+		Name: "decode/variable-length (pass-through) x all fragmentations",
+		Enum: func(c *explore.EnumCtx) {
+			vsched.Run(vsched.Config{MaxSteps: 1 << 60}, func() {
+				for _, max := range []int{1, 3, 4, 64} {
+					for n := 1; n <= 10; n++ {
+						clib.Compositions(n, func(cuts []int) {
+							if c.Expired() {
+								return
+							}
+							vc := vcase{max, n, cuts}
+							k, m := runVariable(vc)
+							c.Case(fmt.Sprint(vc), true, func() any { return vc })
+							c.Count(0, 1)
+							if k != "" {
+								c.Fail(k, m, vc)
+							}
+						})
+					}
+				}
+			})
+		},
+		Replay: func(c *explore.EnumCtx, desc json.RawMessage) {
+			var vc vcase
+			json.Unmarshal(desc, &vc)
+			vsched.Run(vsched.Config{MaxSteps: 1 << 60}, func() {
+				if k, m := runVariable(vc); k != "" {
+					c.Fail(k, m, vc)
+				}
+			})
+		},
+	}
+}
+
 func build(tier string) []*explore.Scenario {
 	th := tier == "thorough"
-	return []*explore.Scenario{lengthFieldDecoders(th), otherDecoders(th), encoders(), pack()}
+	return []*explore.Scenario{lengthFieldDecoders(th), otherDecoders(th), encoders(), pack(), variable()}
 }
 
 func main() {
